@@ -84,7 +84,7 @@ def mustRequested (c : Cfg) (f : Faults) (root : Node) (p : Path) : List Call :=
   | none => []
   | some (.dir gi es) =>
     mustFrom c f (if c.useGitignore then (parentGis f root p).1 else []) p (.dir gi es)
-  | some (.file k sz) => mustOne { c with useGitignore := false } f [] ⟨p, k, sz, []⟩
+  | some (.file k sz) => mustOne { c with useGitignore := false } f [] ⟨p, statKind k, sz, []⟩
 
 /-- calls owed to one scan root -/
 def mustRoot (c : Cfg) (f : Faults) (root : Node) : List Call :=
@@ -99,5 +99,47 @@ def mustExtract (c : Cfg) (roots : List (Node × Faults)) : List Call :=
 def Benign (c : Cfg) : Prop :=
   c.maxInodes = 0 ∧ c.errorOnFSErrors = false ∧ c.cancelBefore = false ∧ c.cancelAt = none ∧
   ∀ e p, (c.extract e p).panics = false
+
+end Scalibr.Walk
+
+namespace Scalibr.Walk
+
+/-! ### which filesystem failures a walk is told about (C09, "fatal only on request")
+
+`traversalFault` is true when the walk — proceeding as it does when errors are NOT fatal — meets a
+failure that `handleFile` is told about: a directory that cannot be opened or whose listing fails, an
+unreadable `.gitignore` of a directory it enters, the failing size stat of a file some extractor
+requires, a start path that cannot be stat'ed or does not exist.  (Failing to open or stat a file for
+extraction is not a traversal failure: it is charged to the extractor's status.) -/
+mutual
+def traversalFault (c : Cfg) (f : Faults) (gis : List GiEntry) (p : Path) : Node → Bool
+  | .file k _ =>
+    !((k = .special) || (k = .symlink && !c.readSymlinks)) &&
+    !(c.useGitignore && stackMatch c gis (tokens p) false) &&
+    (List.range c.nExt).any (fun e => c.required e p) && decide (c.maxFileSize > 0) && f.statFail p
+  | .dir gi es =>
+    if excludedDir c gis p then false
+    else (c.useGitignore && f.openFail (p ++ [".gitignore"])) || f.openFail p ||
+      traversalFaultL c f (if c.useGitignore then gis ++ [giEntryOf f ⟨p, gi, 0⟩] else gis) p es 0
+def traversalFaultL (c : Cfg) (f : Faults) (gis : List GiEntry) (p : Path) : List (String × Node) → Nat → Bool
+  | [], k => f.readEntryFail p k
+  | (s, n) :: rest, k => f.readEntryFail p k || traversalFault c f gis (p ++ [s]) n || traversalFaultL c f gis p rest (k+1)
+end
+
+def traversalFaultRequested (c : Cfg) (f : Faults) (root : Node) (p : Path) : Bool :=
+  if f.statFail p then true else
+  match lookup root p with
+  | none => true
+  | some (.dir gi es) =>
+    if c.useGitignore then (parentGis f root p).2 || traversalFault c f (parentGis f root p).1 p (.dir gi es)
+    else traversalFault c f [] p (.dir gi es)
+  | some (.file k sz) => traversalFault { c with useGitignore := false } f [] p (.file (statKind k) sz)
+
+def traversalFaultRoot (c : Cfg) (f : Faults) (root : Node) : Bool :=
+  if c.paths.isEmpty then (f.statFail [] || traversalFault c f [] [] root)
+  else c.paths.any (traversalFaultRequested c f root)
+
+def traversalFaultScan (c : Cfg) (roots : List (Node × Faults)) : Bool :=
+  roots.any fun (r, f) => traversalFaultRoot c f r
 
 end Scalibr.Walk
